@@ -118,6 +118,7 @@ where
         infinite_source: false,
         horizon: 0,
         no_retire_check: false,
+        horizon_delta: 0,
         prefix_spec: false,
         sync_check: false,
     }
@@ -271,15 +272,16 @@ pub fn generic_subjects(tagsets: &[InTags]) -> Vec<Subject> {
             let nt = taps.len();
             let x = vals(n);
             let mut want = vec![];
-            let mut k = 0;
-            while k + nt <= n {
+            // One output per full group of `deci` samples with a full window.
+            let nout = if n + 1 > nt { (n - nt + 1) / deci } else { 0 };
+            for o in 0..nout {
+                let k = o * deci;
                 // y[k] = sum_j taps[j] * x[k + nt - 1 - j]
                 let mut acc = 0u64;
                 for j in 0..nt {
                     acc = acc.wrapping_add(taps[j].wrapping_mul(x[k + nt - 1 - j]));
                 }
                 want.push(acc);
-                k += deci;
             }
             // A tag is delivered iff its sample is consumed: the first
             // outputs*deci input samples are.
@@ -352,6 +354,7 @@ pub fn generic_subjects(tagsets: &[InTags]) -> Vec<Subject> {
                 infinite_source: false,
                 horizon: 0,
                 no_retire_check: false,
+                horizon_delta: 0,
                 prefix_spec: false,
                 sync_check: false,
             });
@@ -397,6 +400,7 @@ pub fn generic_subjects(tagsets: &[InTags]) -> Vec<Subject> {
                 infinite_source: false,
                 horizon: 0,
                 no_retire_check: false,
+                horizon_delta: 0,
                 prefix_spec: false,
                 sync_check: false,
             });
@@ -431,6 +435,7 @@ pub fn sink_subjects() -> Vec<Subject> {
             infinite_source: false,
             horizon: 0,
             no_retire_check: false,
+            horizon_delta: 0,
             prefix_spec: false,
             sync_check: false,
         });
@@ -457,6 +462,7 @@ pub fn sink_subjects() -> Vec<Subject> {
             infinite_source: false,
             horizon: 0,
             no_retire_check: false,
+            horizon_delta: 0,
             prefix_spec: false,
             sync_check: false,
         });
@@ -478,8 +484,10 @@ pub fn all_subjects(prop: &str, thorough: bool) -> Vec<Subject> {
         return crate::subjects_derive::derive_subjects(&ts);
     }
     let mut v = generic_subjects(&tagsets);
+    v.extend(crate::subjects_native::native_subjects(prop));
     if prop == "C09" {
         v.extend(sink_subjects());
+        v.extend(crate::subjects_native::endless_sources());
     }
     let _ = (Complex::new(0.0, 0.0), 0.0 as Float);
     v
